@@ -64,6 +64,18 @@ def main(tier, seed):
     except coqrun.CoqError as e:
         run.violation({"kind": "model does not evaluate", "no_longer_checks": "Cognates/PartialExec.v",
                        "error": str(e)}, no_input=True)
+    # the documented defaults the model is given for omitted keywords, against the source
+    try:
+        src = partial.source_defaults()
+        diffs = {k: [src.get(k), v] for k, v in partial.DOC_DEFAULTS.items() if src.get(k) != v}
+        run.coverage["defaults_check"] = {"source": src, "differences": diffs}
+    except Exception as e:      # a rewritten kw dict is not an alarm; the omission cases test the behaviour
+        diffs = {}
+        run.coverage["defaults_check"] = "not readable: %s" % e
+    if diffs and not run.violations:
+        run.violation({"kind": "a documented default of partial_cluster / add_cognate_ids changed in the source",
+                       "no_longer_checks": "documented defaults %s (source value, documented value)" % diffs},
+                      no_input=True)
     if not proofs_ok and not total_prop:
         run.violation({"kind": "proof obligation broken", "no_longer_checks": pr["broken"], "log": pr["log"][-1500:]},
                       no_input=True)
@@ -73,11 +85,15 @@ def main(tier, seed):
         "1-3 concepts x 2-4 languages (thorough: up to 4 x 5), missing cells, synonyms, 1-4 morphemes per word drawn "
         "from a pool of 1-4 morphemes per concept, a morpheme repeated inside a word with probability 0.3, 20%% of the "
         "wordlists with irregular separators (leading/trailing/double/triple '+'). Streams: partial_exhaustive = every "
-        "pair of words over {ta, ku} with 1-2 morphemes x 2 stub seeds x 3 linkages x imap x post (quick: one half, "
+        "pair of words over {ta, ku} with 1-2 morphemes x 2 stub seeds x 3 linkages x imap {off,on,omitted} x post {off,on,omitted} (quick: one half, "
         "chosen by the seed); partial_stub = aligner replaced by a deterministic grid-valued function of its arguments "
         "(all 4 linkages incl. ward; some cases with ZeroDivisionError); partial_real = real aligner (method 'sca'), "
         "every call recorded and replayed into the model as exact rationals (single, complete, upgma); derive_random = "
         "add_cognate_ids strict/loose on random source id lists (empty lists, ids shared between concepts). "
+        "In about 40%% of the random cases (and in 5 of 9 keyword patterns of the exhaustive stream) one or more of the "
+        "optional keywords post_processing, imap_mode, threshold, method, ref, idtype are OMITTED from the call, so the "
+        "library's own defaults are exercised while the model holds the documented defaults (on, on, 0.45, 'sca', "
+        "'partial_cognate_sets', 'strict'). "
         "Non-trivial (partial) = the run returned and in some concept at least two morphemes share an id while at "
         "least two ids occur; (derive) = some concept has a loose component with more than one word and at least two "
         "components. Distinct by full input. Ids of the real stream are compared with the model only when the float "
